@@ -9,7 +9,8 @@ CONSTANTS NN, Atoms, Kinds
 RECURSIVE JoinS(_, _)
 JoinS(args, i) == IF i > Len(args) THEN ""
                   ELSE (IF i > 1 THEN "," ELSE "") \o args[i] \o JoinS(args, i + 1)
-ApplyStr(n, args) == "f" \o ToString(n) \o "(" \o JoinS(args, 1) \o ")"
+ApplyStr(n, args) == IF \E i \in 1..Len(args) : args[i] \in {"!", "ERR"}      \* a poisoned argument: the function raises
+                     THEN "ERR" ELSE "f" \o ToString(n) \o "(" \o JoinS(args, 1) \o ")"
 DrawStr(d, r, pv) == "s"
 
 RECURSIVE SetToSeq(_, _)
@@ -31,10 +32,11 @@ StateOf(a) == \* the up-to-date state for the assignment a of atoms to the value
 
 Init ==
   /\ N = NN
+  /\ ord = [i \in 1..N |-> i]
   /\ \E g \in Graphs : /\ kind = [n \in 1..NN |-> g[n].k]
                        /\ inp = [n \in 1..NN |-> SetToSeq(g[n].ins, NN)]
   /\ val = [n \in 1..NN |-> None] /\ flag = [n \in 1..NN |-> FALSE] /\ dirty = flag
-  /\ auto = TRUE /\ slots = <<>> /\ evald = {}
+  /\ auto = TRUE /\ slots = <<>> /\ evald = {} /\ raised = FALSE
   /\ \E a \in [1..NN -> Atoms] : st = StateOf(a)
   /\ \E S \in SUBSET ValueNodes : \E x \in [S -> Atoms] : pos = [i \in 1..Cardinality(S) |-> <<SetToSeq(S, NN)[i], x[SetToSeq(S, NN)[i]]>>]
   /\ \E a \in [1..NN -> Atoms], fl \in [1..NN -> BOOLEAN] : priv = <<StateOf(a)[1], fl>>
